@@ -26,11 +26,40 @@ Third wave (domains/w3_c01.py) - libraries that are built, not loaded:
   descriptors} is estimated: exact sum when all are present by then,
   missing-data error naming exactly the absent ones otherwise.  The witness
   of a history is the whole history.
+
+Fourth wave (domains/w4_c01.py):
+* the optional switch of get_SoR / get_GoRT given explicitly but switched
+  off: 10 presentations of a false value (None, False, 0, 0.0, -0.0, numpy
+  bool / int / float scalars, 0-d bool and float arrays) x {positional,
+  keyword} x {S/R, G/RT}, at the middle grid temperature, for the count-2
+  unit vector of every group of every library, every (1, .) pair of
+  data-shape representatives and every three-descriptor mapping (8) of each
+  of the 27 built libraries;
+  the expectation is the same plain sum over the constituents;
+* several library objects in one process: a source library (each of the ten
+  libraries - three carry uncertainty data - and a hand-made one) is merged
+  by Update() into a receiver made in one of 4 ways, while a bystander
+  library made in one of 4 ways (2 descriptors of its own + 1 group of the
+  source) exists since before the receiver / since before the Update / is
+  made afterwards: 48 histories per source, run one after the other in one
+  child interpreter per source.  Judged: every non-empty subset of the
+  bystander's descriptors (before and after the Update) and, on the receiver,
+  the source's data-shape representatives, adjacent pairs of them and the
+  receiver's own descriptors.  The witness is the list of all histories run
+  in that interpreter up to the violating one.
 """
+import json
+import os
+import subprocess
+import sys
+import tempfile
+
+from .. import VERIF
 from ..runner import Result
 from ..domains import estimates as E
 from ..domains import libs
 from ..domains import w3_c01 as W
+from ..domains import w4_c01 as V
 
 LEVEL = 'exploration'
 LIBS = libs.LIBS + ['synthetic']
@@ -51,10 +80,26 @@ BOUND = {'quick': 'all unit vectors x 7 counts; all pairs (5 count pairs, both '
                   'object: one Update adding both x 4 probes = 4; every '
                   'history ends in 7 judged estimates (all non-empty subsets '
                   'of {present group, the two new descriptors}), every '
-                  'estimate probe is the same 7',
+                  'estimate probe is the same 7. Fourth wave: S/R and G/RT '
+                  'with the optional switch given but off: 10 presentations '
+                  'of a false value x {positional, keyword} x 2 getters = 40 '
+                  'calls at the middle grid temperature for every count-2 '
+                  'unit vector, every pair of data-shape representatives '
+                  'whose first count is 1, and the 8 three-descriptor '
+                  'mappings (string keys) of each of the 27 built libraries; '
+                  'several library objects in one '
+                  'process: 11 source libraries x 4 ways of building the '
+                  'receiver of Update(source) x 4 ways of building a '
+                  'bystander library x 3 moments of building it = 528 '
+                  'histories (48 per child interpreter), each with 7 judged '
+                  'bystander estimates after (and, if it existed, before) '
+                  'the Update and 2r-1 (+4) judged receiver estimates for r '
+                  'data-shape representatives',
          'thorough': 'additionally all pairs of groups for libraries with <= 80 '
-                     'groups; the built-library, synonym and history families '
-                     'at the same bound as quick'}
+                     'groups (which also widens the switched-off family to '
+                     'those pairs); the built-library, synonym, history, '
+                     'switched-off and several-libraries families at the '
+                     'same bound as quick'}
 RULE = ('each mapping is estimated on a FRESH library object (no molecule has '
         'been decomposed) and every non-dimensional property is compared with '
         'the harness\'s own sum over the constituents evaluated one by one; '
@@ -66,7 +111,13 @@ RULE = ('each mapping is estimated on a FRESH library object (no molecule has '
         '(those it handed to Update(), and the present group\'s object taken '
         'from lib.contents before the first step), never through the library '
         'lookup whose behaviour over time is the thing under test; every '
-        'history case is non-trivial')
+        'history case is non-trivial. A call that passes the optional switch '
+        'explicitly is non-trivial; its expectation is the same sum over '
+        'constituents called without the switch. The several-libraries family '
+        'runs in one child interpreter per source library, its histories one '
+        'after the other on one loaded source object; expectations are the '
+        'source\'s own correlation objects (taken before the first history) '
+        'and the hand-made ones; every case of it is non-trivial')
 ASSUMPTIONS = ['relative tolerance 1e-9 on the sums',
                'temperatures: ends and middle of the common range, reference '
                'temperatures inside it',
@@ -85,7 +136,17 @@ ASSUMPTIONS = ['relative tolerance 1e-9 on the sums',
                'common range); if Update() itself refuses an addition the '
                'history ends without a verdict and a note is written '
                '(observed: a YAML-loaded library that names the group with an '
-               'empty block raises TypeError - C13\'s ground)']
+               'empty block raises TypeError - C13\'s ground)',
+               'the switched-off presentations are evaluated on fresh library '
+               'objects (no molecule decomposed); what a TRUE switch must '
+               'subtract is C07\'s property and is not judged here',
+               'several library objects: each receiver gets exactly one '
+               'Update() from one source (two sources with uncertainty data '
+               'are refused by design); on a receiver that took over an '
+               'uncertainty basis only the source\'s groups are estimated '
+               '(a descriptor outside the basis must fail, C20); the source '
+               'object is shared by the 48 histories of its interpreter, '
+               'which is why a witness carries the whole prefix']
 MANIFEST = dict(
     technique='exhaustive enumeration of descriptor->count mappings over every '
               'group of every library vs constituent-wise recomputation',
@@ -103,10 +164,19 @@ MANIFEST = dict(
          'object over time: a descriptor that was looked up or estimated '
          'while absent and then added by Update() contributes exactly its '
          'data afterwards (every sequence of additions of two descriptors x '
-         'every kind of earlier probe).',
+         'every kind of earlier probe). S/R and G/RT are the same sums when '
+         'the optional element switch is passed explicitly in any of 10 '
+         'false presentations, positionally or by keyword. An estimate on '
+         'one library object is the sum over that object\'s correlations '
+         'whatever happened to other library objects of the process: for 11 '
+         'source libraries merged by Update() into receivers built in 4 '
+         'ways, bystander libraries built in 4 ways at 3 moments estimate '
+         'exactly, and so does the receiver.',
     note='Counts come from a 7-value alphabet; mappings larger than three '
          'terms are not enumerated. Histories contain at most two Update() '
-         'calls and only additions.',
+         'calls and only additions. A true element switch is not judged '
+         '(C07). A process holds one source, and per history one receiver '
+         'with one Update() and one bystander.',
     ref='5/C01')
 
 
@@ -133,7 +203,7 @@ def estimate(lib, mapping, as_group=False):
     return lib.Estimate(d, 'thermochem')
 
 
-def check_mapping(R, name, lib, tag, mapping, as_group):
+def check_mapping(R, name, lib, tag, mapping, as_group, switch=False):
     wit = dict(kind='map', lib=name, mapping=[[str(g), c] for g, c in mapping],
                as_group=as_group)
     r = E.ev(estimate, lib, mapping, as_group)
@@ -182,6 +252,10 @@ def check_mapping(R, name, lib, tag, mapping, as_group):
                             % (name, prop, T, wit['mapping'], got[1], want), wit)
             else:
                 R.outcomes['sum-ok'] += 1
+    if switch:
+        temps = E.grid_inside(rng, mapping, lib)
+        if temps:
+            check_switch_off(R, name, e, cons, temps[len(temps) // 2], wit)
     # the estimate must not follow later changes of the caller's own mapping
     d = dict((str(g), c) for g, c in mapping)
     r2 = E.ev(lib.Estimate, d, 'thermochem')
@@ -206,6 +280,53 @@ def check_mapping(R, name, lib, tag, mapping, as_group):
             R.outcomes['independent-of-callers-mapping'] += 1
     if len(mapping) > 1:
         R.sample(dict(library=name, mapping=wit['mapping'], range=rng), limit=1)
+
+
+def check_switch_off(R, name, e, cons, T, wit):
+    """S/R and G/RT with the element correction explicitly NOT requested:
+    every presentation of 'off' x positional / keyword.  The expectation is
+    the same plain sum over the constituents as for the call without the
+    argument."""
+    for prop in V.SWITCHED:
+        parts = [E.ev(getattr(k, prop), T) for k, _ in cons]
+        exs = set(p[1] for p in parts if p[0] == 'exc')
+        want = None if exs else sum(c * p[1] for (k, c), p in zip(cons, parts))
+        for label, val in V.off_switches():
+            for route in V.ROUTES:
+                R.evals += 1
+                R.nontrivial += 1
+                got = E.ev(V.call_switched, e, prop, T, val, route)
+                how = '%s(%g, %s%s)' % (prop, T, 'S_elements=' if route ==
+                                        'keyword' else '', label)
+                w = dict(wit, switch=label, route=route)
+                if exs:
+                    if got[0] == 'exc' and got[1] in exs:
+                        R.outcomes['switch-off:propagates:' + got[1]] += 1
+                    else:
+                        R.outcomes['switch-off:partial-sum'] += 1
+                        R.violation('switch-off-partial-sum:%s' % prop,
+                                    '[%s] %s of %r: a constituent raises %s '
+                                    'but the estimate gave %r' % (
+                                        name, how, wit['mapping'], sorted(exs),
+                                        got[:2]), w)
+                    continue
+                if got[0] != 'ok':
+                    R.outcomes['switch-off:raises'] += 1
+                    R.violation('switch-off-raises:%s:%s' % (prop, got[1]),
+                                '[%s] %s of %r raised %s; no element '
+                                'correction was requested and the constituents '
+                                'give %r' % (name, how, wit['mapping'], got[1],
+                                             want), w)
+                elif not E.is_plain_finite(got[1]) or \
+                        abs(float(got[1]) - want) > 1e-9 * max(1.0, abs(want)):
+                    R.outcomes['switch-off:wrong-sum'] += 1
+                    R.violation('switch-off-wrong-sum:%s' % prop,
+                                '[%s] %s of %r = %r; no element correction '
+                                'was requested and the sum over constituents '
+                                'is %r' % (name, how, wit['mapping'], got[1],
+                                           want), w)
+                else:
+                    R.outcomes['switch-off:sum-ok'] += 1
 
 
 MISSING = ['Q(Z)9', 'C(H)3(O)', 'Q(Z)(Y)2(Z)']   # unknown, named without data, non-canonical unknown
@@ -256,10 +377,12 @@ def run_lib(R, name, i, n, tier):
     for k, (tag, mapping) in enumerate(E.mappings(lib, tier, below)):
         if k % n != i:
             continue
-        check_mapping(R, name, lib, tag, mapping, as_group=False)
+        varied = (tag == 'unit' and mapping[0][1] == 2) or \
+            (tag == 'pair' and mapping[0][1] == 1)
+        check_mapping(R, name, lib, tag, mapping, as_group=False, switch=varied)
         if tag != 'unit' or mapping[0][1] == 1:
             check_mapping(R, name, lib, tag, mapping, as_group=True)
-        if (tag == 'unit' and mapping[0][1] == 2) or (tag == 'pair' and mapping[0][1] == 1):
+        if varied:
             check_missing(R, name, lib, mapping)
 
 
@@ -271,7 +394,8 @@ def run_ctor(R, i, n):
             continue
         lib = W.ctor_library(name)
         for tag, mapping in W.ctor_mappings(lib):
-            check_mapping(R, name, lib, tag, mapping, as_group=False)
+            check_mapping(R, name, lib, tag, mapping, as_group=False,
+                          switch=(tag == 'built-triple'))
             if tag != 'built-unit' or mapping[0][1] == 1:
                 check_mapping(R, name, lib, tag, mapping, as_group=True)
 
@@ -300,7 +424,7 @@ def grid_of(cons):
     return [0.5 * (lo + hi)]
 
 
-def compare_history_sum(R, ctx, e, cons, wit):
+def compare_history_sum(R, ctx, e, cons, wit, pre='hist'):
     for T in grid_of(cons):
         for prop in E.PROPS:
             R.evals += 1
@@ -310,28 +434,28 @@ def compare_history_sum(R, ctx, e, cons, wit):
             if any(p[0] == 'exc' for p in parts):
                 exs = set(p[1] for p in parts if p[0] == 'exc')
                 if got[0] == 'exc' and got[1] in exs:
-                    R.outcomes['hist:propagates:' + got[1]] += 1
+                    R.outcomes[pre + ':propagates:' + got[1]] += 1
                 else:
-                    R.outcomes['hist:partial-sum'] += 1
-                    R.violation('hist-partial-sum:%s' % prop,
+                    R.outcomes[pre + ':partial-sum'] += 1
+                    R.violation('%s-partial-sum:%s' % (pre, prop),
                                 '%s %s(%g): a constituent raises %s but the '
                                 'estimate gave %r' % (ctx, prop, T, sorted(exs),
                                                       got[:2]), wit)
                 continue
             want = sum(c * p[1] for (k, c), p in zip(cons, parts))
             if got[0] != 'ok':
-                R.outcomes['hist:raises'] += 1
-                R.violation('hist-raises:%s:%s' % (prop, got[1]),
+                R.outcomes[pre + ':raises'] += 1
+                R.violation('%s-raises:%s:%s' % (pre, prop, got[1]),
                             '%s %s(%g) raised %s; constituents give %r'
                             % (ctx, prop, T, got[1], want), wit)
             elif not E.is_plain_finite(got[1]) or \
                     abs(float(got[1]) - want) > 1e-9 * max(1.0, abs(want)):
-                R.outcomes['hist:wrong-sum'] += 1
-                R.violation('hist-wrong-sum:%s' % prop,
+                R.outcomes[pre + ':wrong-sum'] += 1
+                R.violation('%s-wrong-sum:%s' % (pre, prop),
                             '%s %s(%g) = %r, sum over constituents = %r'
                             % (ctx, prop, T, got[1], want), wit)
             else:
-                R.outcomes['hist:sum-ok'] += 1
+                R.outcomes[pre + ':sum-ok'] += 1
 
 
 def run_history(R, name, build, keystyle, steps, base=None, g1obj=None):
@@ -458,6 +582,152 @@ def run_built(R, name):
     run_histories(R, name, 'ctor', base)
 
 
+# ------------------------------------- several library objects, one process
+
+def run_process_histories(R, source, hists):
+    """The histories `hists` one after the other in THIS process, all on one
+    loaded source library (a load per history would cost 0.1-0.6 s each).
+    Later histories therefore run in whatever process state the earlier ones
+    left behind: the witness of a violation in history k is hists[:k+1], and
+    replaying it walks that whole prefix in a fresh process."""
+    if source.startswith('w3ctor:'):
+        S = W.ctor_library(source)
+    else:
+        S = W.private_load(source)      # never modified, never estimated on
+    reps = E.class_reps(S)
+    g1obj = reps[0]
+    g1 = str(g1obj)
+    held = dict((str(g), S.contents[g]['thermochem']) for g in reps)
+    with_basis = source in libs.UQ_LIBS
+
+    def judge(lib, who, when, mapping, have, wit):
+        ctx = '[%s] %s, %s: Estimate(%r)' % (source, who, when, mapping)
+        r = E.ev(lib.Estimate, dict(mapping), 'thermochem')
+        if r[0] != 'ok':
+            R.evals += 1
+            R.nontrivial += 1
+            R.outcomes['process:estimate-raises:' + r[1]] += 1
+            R.violation('process-estimate-raises:%s' % r[1],
+                        '%s: every descriptor has data in this library but '
+                        'Estimate raised %s (histories run in this process: '
+                        '%r)' % (ctx, r[1], wit['histories']), wit)
+            return
+        compare_history_sum(R, ctx, r[1], [(have[x], c) for x, c in mapping],
+                            wit, pre='process')
+
+    for k, (pa, pb, moment) in enumerate(hists):
+        wit = dict(kind='process', source=source,
+                   histories=[list(h) for h in hists[:k + 1]])
+        corr = V.own_correlations()
+        have_b = {g1: held[g1], V.B_GROUP: corr[V.B_GROUP],
+                  V.B_CORR: corr[V.B_CORR]}
+        who_b = 'bystander library built by %r' % pb
+        who_a = 'receiver library built by %r' % pa
+
+        def make(who, when, path, items):
+            # building a library from hand-made parts cannot fail; if it does
+            # (in a process that did nothing but these histories) that is
+            # reported with the history instead of ending the exploration
+            R.evals += 1
+            R.nontrivial += 1
+            r = E.ev(V.build, S.scheme, path, items)
+            if r[0] == 'ok':
+                R.outcomes['process:library-built'] += 1
+                return r[1]
+            R.outcomes['process:construction-raises:' + r[1]] += 1
+            R.violation('process-construction-raises:%s' % r[1],
+                        '[%s] %s, %s: building it from hand-made '
+                        'correlations raised %s (histories run in this '
+                        'process: %r)' % (source, who, when, r[1],
+                                          wit['histories']), wit)
+            return None
+
+        def bystander(when):
+            B = make(who_b, when, pb, V.bystander_items(S, g1obj, corr))
+            if B is not None:
+                for mapping in V.bystander_mappings(g1):
+                    judge(B, who_b, when, mapping, have_b, wit)
+            return B
+
+        B = None
+        if moment == 'first':
+            B = bystander('made before the receiver (%r)' % pa)
+            if B is None:
+                continue
+        A = make(who_a, 'before its Update(%s)' % source, pa,
+                 V.receiver_items(S, pa, corr))
+        if A is None:
+            continue
+        if moment == 'between':
+            B = bystander('made before the receiver (%r) was Update()d' % pa)
+            if B is None:
+                continue
+        r = E.ev(A.Update, S)
+        R.evals += 1
+        R.nontrivial += 1
+        if r[0] != 'ok':
+            # whether Update() accepts the source is C13's question
+            R.outcomes['process:update-refused:' + r[1]] += 1
+            if not R.notes:
+                R.notes.append('[%s] Update(%s) on a receiver built by %r '
+                               'raised %s: history ends without a verdict'
+                               % (source, source, pa, r[1]))
+            continue
+        R.outcomes['process:update-accepted'] += 1
+        when = 'after the receiver (%r) was Update()d from %s' % (pa, source)
+        if B is None:
+            B = make(who_b, when, pb, V.bystander_items(S, g1obj, corr))
+        if B is not None:
+            for mapping in V.bystander_mappings(g1):
+                judge(B, who_b + (' earlier' if moment != 'last' else ''),
+                      when, mapping, have_b, wit)
+        # the receiver: the library copies what it is given, so the source's
+        # own objects (and the hand-made ones) are the expectation.  With an
+        # uncertainty basis taken over from the source, descriptors outside
+        # it must fail (C20) and are not estimated here.
+        own = [] if (pa == 'bare' or with_basis) else [V.A_GROUP, V.A_CORR]
+        have_a = dict(held)
+        for d in own:
+            have_a[d] = corr[d]
+        for mapping in V.receiver_mappings([str(g) for g in reps], own):
+            judge(A, who_a, 'after Update(%s)' % source, mapping, have_a, wit)
+        if k == 0:
+            R.sample(dict(process=source, history=[pa, pb, moment]), limit=1)
+
+
+def _process_child(source, outpath):
+    R = Result()
+    run_process_histories(R, source, V.process_histories())
+    with open(outpath, 'w') as f:
+        json.dump(R.pack(), f, default=str)
+
+
+def run_process_isolated(R, source):
+    """This family is about state that outlives one library object; it gets
+    an interpreter of its own so that whatever it leaves behind cannot reach
+    the other families of this worker (whose witnesses are replayed alone),
+    and so that nothing the worker did before reaches it."""
+    with tempfile.TemporaryDirectory(prefix='pgv_c01p_') as d:
+        outp = os.path.join(d, 'out.json')
+        p = subprocess.run(
+            [sys.executable, '-c', 'import sys; from mc.props import c01; '
+             'c01._process_child(sys.argv[1], sys.argv[2])', source, outp],
+            cwd=VERIF, env=dict(os.environ), stdin=subprocess.DEVNULL,
+            stdout=subprocess.PIPE, stderr=subprocess.STDOUT, timeout=3600)
+        if p.returncode != 0 or not os.path.exists(outp):
+            raise RuntimeError('process-family child for %s failed rc=%s: %s'
+                               % (source, p.returncode,
+                                  p.stdout.decode(errors='replace')[-1200:]))
+        pack = json.load(open(outp))
+    R.evals += pack['evals']
+    R.nontrivial += pack['nontrivial']
+    R.outcomes.update(pack['outcomes'])
+    R.extra.update(pack['extra'])
+    R.violations.extend(pack['violations'])
+    R.samples.extend(pack['samples'])
+    R.notes.extend(pack['notes'][:3])
+
+
 def shards(tier, seed):
     out = []
     for name in LIBS:
@@ -473,6 +743,10 @@ def shards(tier, seed):
         # a descriptor outside an uncertainty basis is C20's business
         if name not in libs.UQ_LIBS:
             out.append(('w3-loaded', name))
+    # fourth wave: several library objects in one process (same in both
+    # tiers); one child interpreter per source library
+    for name in LIBS + [W.HIST_CTOR_BASE]:
+        out.append(('w4-process', name))
     return out
 
 
@@ -484,6 +758,8 @@ def run_shard(shard, tier):
         run_built(R, shard[1])
     elif shard[0] == 'w3-loaded':
         run_histories(R, shard[1], 'loaded', None)
+    elif shard[0] == 'w4-process':
+        run_process_isolated(R, shard[1])
     else:
         run_lib(R, shard[0], shard[1], shard[2], tier)
     return R
@@ -495,11 +771,17 @@ def replay(w):
         run_history(R, w['lib'], w['build'], w['keys'], w['steps'])
         return dict(violates=bool(R.violations),
                     detail='\n'.join(v['msg'] for v in R.violations) or 'holds')
+    if w['kind'] == 'process':
+        # replay runs in a fresh interpreter already
+        run_process_histories(R, w['source'], [tuple(h) for h in w['histories']])
+        return dict(violates=bool(R.violations),
+                    detail='\n'.join(v['msg'] for v in R.violations) or 'holds')
     lib = fresh(w['lib'])
     if w['kind'] == 'map':
         groups = {str(g): g for g in lib}
         mapping = [(groups.get(g, g), c) for g, c in w['mapping']]
-        check_mapping(R, w['lib'], lib, 'replay', mapping, w['as_group'])
+        check_mapping(R, w['lib'], lib, 'replay', mapping, w['as_group'],
+                      switch=True)
     else:
         r = E.ev(lib.Estimate, dict((a, b) for a, b in w['items']), 'thermochem')
         ex = [a for a, b in w['items'] if a in MISSING]
